@@ -551,6 +551,9 @@ class _LogSession:
         self.chan = None
         self.eof_keep = eof_keep
         self.events = store.setdefault(name, [])
+        # when set to k > 0: the application pauses reading again from
+        # inside its k-th next data_received() (a partial resume)
+        self.repause_after = 0
 
     def connection_made(self, chan):
         self.chan = chan
@@ -561,6 +564,12 @@ class _LogSession:
 
     def data_received(self, data, datatype):
         self.events.append(('data', datatype, data))
+
+        if self.repause_after:
+            self.repause_after -= 1
+
+            if not self.repause_after:
+                self.chan.pause_reading()
 
     def eof_received(self):
         self.events.append(('eof',))
